@@ -121,6 +121,7 @@ func (l *listener) listenLoop() {
 				}
 				conn := newStreamWrapper(stream, stream.LocalAddr(), stream.RemoteAddr(), wg)
 				l.mu.Unlock()
+				vpo(vpNLBeforeBacklogSend, l, 0)
 				select {
 				case <-l.closeCh:
 					// nobody will accept this conn any more, release its reference on the session
